@@ -98,8 +98,15 @@ class Reverter(object):
                         self.session.delete(value)
             else:
                 child_obj = getattr(self.obj, prop.key)
+                value = None
                 if child_obj is not None:
-                    self.revert_child(child_obj, prop)
+                    value = self.revert_child(child_obj, prop)
+                if prop.direction.name == 'ONETOMANY':
+                    # one-to-one: a child related now but not shown by the
+                    # version goes away like the members of a collection do
+                    current = getattr(self.version_parent, prop.key, None)
+                    if current is not None and current is not value:
+                        self.session.delete(current)
 
     def revert_child(self, child, prop):
         return self.__class__(
